@@ -1,7 +1,7 @@
 (* C03 — The merged schema is exactly the union of the service schemas.
    Statements only; proofs in Merge/Proofs.v. *)
 From Coq Require Import List String Bool.
-From Pebbles Require Import Merge.Model Merge.TypeUrlProofs Merge.Proofs.
+From Pebbles Require Import Merge.Model Merge.TypeUrlProofs Merge.Proofs Merge.SupProofs.
 Import ListNotations.
 Open Scope string_scope.
 
@@ -67,6 +67,18 @@ Proof.
   apply find_def_some in HfD as [HD Hn]. exists D. repeat split; auto. intros Hx. symmetry. auto.
 Qed.
 
+(* (3) the other inclusion, at the level of field names: every field name of every service's object / interface /
+   input type is a field name of the same-named type of the merged schema, for any number of services in any order —
+   away from `id`, built-in names and, on a root type, names under which some service declares a field of the shape
+   of the Relay entry point (finding C03-node-lost). Signatures are not claimed (finding C03-field-signature). *)
+Theorem merged_has_every_field_name : forall inputs M tm u s d n,
+  (forall u s, In (u, s) inputs -> wf_schema s) -> merge inputs = MOk M tm ->
+  In (u, s) inputs -> In d s -> is_builtin (d_name d) = false -> d_name d <> "Node" -> fielded_kind (d_kind d) ->
+  field_named n (d_fields d) = true -> n <> "id" -> is_builtin n = false ->
+  (is_root (d_name d) = true -> no_node_shape inputs (d_name d) n) ->
+  exists D, In D M /\ d_name D = d_name d /\ field_named n (d_fields D) = true.
+Proof. exact Merge.SupProofs.merged_has_every_field_name. Qed.
+
 (* the node-hiding merger removes only Query.node *)
 Theorem hide_node_only_removes_node : forall s D, In D (hide_node s) ->
   exists D0, In D0 s /\ d_name D = d_name D0 /\ d_kind D = d_kind D0 /\
@@ -97,3 +109,4 @@ Print Assumptions C03_refuted.
 Print Assumptions merged_subset.
 Print Assumptions merged_has_every_type.
 Print Assumptions hide_node_only_removes_node.
+Print Assumptions merged_has_every_field_name.
